@@ -990,6 +990,229 @@ fn run_file(p: &[&str]) -> String {
     }
 }
 
+
+// ---------------------------------------------------------------- CFF DICTs
+/// ENTRIES = `.` | entry `+` entry ..; entry = CODE `:` [operand `,` operand ..];
+/// operand = i<dec> (Integer) | o<dec> (Offset) | r<hex> (Real, raw nibble bytes)
+fn operand_show(o: &cff::Operand) -> String {
+    match o {
+        cff::Operand::Integer(v) => format!("i{}", v),
+        cff::Operand::Offset(v) => format!("o{}", v),
+        cff::Operand::Real(r) => format!("r{}", hex(verif::cff::real_bytes(r))),
+    }
+}
+fn entries_show<T: cff::DictDefault>(d: &cff::Dict<T>) -> String {
+    let v: Vec<String> = d
+        .iter()
+        .map(|(op, ops)| format!("{}:{}", *op as u16, ops.iter().map(operand_show).collect::<Vec<_>>().join(",")))
+        .collect();
+    if v.is_empty() {
+        ".".to_string()
+    } else {
+        v.join("+")
+    }
+}
+fn parse_operand(s: &str) -> cff::Operand {
+    match &s[..1] {
+        "i" => cff::Operand::Integer(s[1..].parse().unwrap()),
+        "o" => cff::Operand::Offset(s[1..].parse().unwrap()),
+        "r" => cff::Operand::Real(verif::cff::real_from_bytes(&unhex(&s[1..]))),
+        _ => panic!("operand {}", s),
+    }
+}
+fn parse_entries(s: &str) -> Vec<(cff::Operator, Vec<cff::Operand>)> {
+    if s == "." {
+        return vec![];
+    }
+    s.split('+')
+        .map(|e| {
+            let (code, ops) = e.split_once(':').unwrap();
+            let op = cff::Operator::try_from(code.parse::<u16>().unwrap()).unwrap();
+            let ops = if ops.is_empty() { vec![] } else { ops.split(',').map(parse_operand).collect() };
+            (op, ops)
+        })
+        .collect()
+}
+/// bytes in front of the DICT in the write buffer (the returned length must not include them)
+const DICT_PREFIX: usize = 3;
+fn dict_write_real<T: cff::DictDefault>(d: &cff::Dict<T>, delta: cff::DictDelta) -> Result<(Vec<u8>, usize), WriteError> {
+    let mut b = WriteBuffer::new();
+    b.write_bytes(&[0xAA; DICT_PREFIX])?;
+    let n = cff::Dict::<T>::write_dep(&mut b, d, delta)?;
+    Ok((b.into_inner()[DICT_PREFIX..].to_vec(), n))
+}
+fn dict_rd_show<T: cff::DictDefault>(r: &Result<cff::Dict<T>, ParseError>) -> String {
+    match r {
+        Ok(d) => format!("ok:{}", entries_show(d)),
+        Err(e) => format!("err:{}", perr(e)),
+    }
+}
+/// dict|KIND|HEX: bytes -> read_dep -> write_dep (no delta) -> read_dep -> write_dep
+fn dict_pwp<T: cff::DictDefault>(data: &[u8], max: usize) -> String {
+    let r1 = ReadScope::new(data).read_dep::<cff::Dict<T>>(max);
+    let d1 = match &r1 {
+        Ok(d) => d,
+        Err(_) => return format!("r={}", dict_rd_show(&r1)),
+    };
+    let mut out = format!("r={}", dict_rd_show(&r1));
+    match dict_write_real(d1, cff::DictDelta::new()) {
+        Err(e) => out + &format!(";w=err:{}", werr(&e)),
+        Ok((w, n)) => {
+            out += &format!(";w={};n={}", hex(&w), n);
+            let r2 = ReadScope::new(&w).read_dep::<cff::Dict<T>>(max);
+            out += &format!(";r2={}", dict_rd_show(&r2));
+            if let Ok(d2) = &r2 {
+                match dict_write_real(d2, cff::DictDelta::new()) {
+                    Err(e) => out += &format!(";w2=err:{}", werr(&e)),
+                    Ok((w2, _)) => out += &format!(";w2={}", hex(&w2)),
+                }
+            }
+            out
+        }
+    }
+}
+/// dictw|KIND|ENTRIES|DELTA: entries -> write_dep (with the delta) -> read_dep
+fn dict_wr<T: cff::DictDefault>(entries: &str, delta: &str, max: usize) -> String {
+    let d: cff::Dict<T> = verif::cff::dict_from_entries(parse_entries(entries));
+    let mut dl = cff::DictDelta::new();
+    for (op, ops) in parse_entries(delta) {
+        dl.push(op, ops.into_iter().collect());
+    }
+    match dict_write_real(&d, dl) {
+        Err(e) => format!("w=err:{}", werr(&e)),
+        Ok((w, n)) => {
+            let r = ReadScope::new(&w).read_dep::<cff::Dict<T>>(max);
+            format!("w={};n={};r={}", hex(&w), n, dict_rd_show(&r))
+        }
+    }
+}
+const DICT_KINDS: [&str; 6] = ["top", "font", "priv", "top2", "font2", "priv2"];
+fn dict_max(kind: &str) -> usize {
+    if kind.ends_with('2') {
+        cff::cff2::MAX_OPERANDS
+    } else {
+        cff::MAX_OPERANDS
+    }
+}
+fn dict_pwp_kind(kind: &str, data: &[u8]) -> String {
+    let max = dict_max(kind);
+    match kind {
+        "top" => dict_pwp::<cff::TopDictDefault>(data, max),
+        "font" => dict_pwp::<cff::FontDictDefault>(data, max),
+        "priv" => dict_pwp::<cff::PrivateDictDefault>(data, max),
+        "top2" => dict_pwp::<cff::cff2::TopDictDefault>(data, max),
+        "font2" => dict_pwp::<cff::cff2::FontDictDefault>(data, max),
+        "priv2" => dict_pwp::<cff::cff2::PrivateDictDefault>(data, max),
+        _ => panic!("dict kind {}", kind),
+    }
+}
+fn run_dict(p: &[&str]) -> String {
+    dict_pwp_kind(p[1], &unhex(p[2]))
+}
+fn run_dictw(p: &[&str]) -> String {
+    let max = dict_max(p[1]);
+    match p[1] {
+        "top" => dict_wr::<cff::TopDictDefault>(p[2], p[3], max),
+        "font" => dict_wr::<cff::FontDictDefault>(p[2], p[3], max),
+        "priv" => dict_wr::<cff::PrivateDictDefault>(p[2], p[3], max),
+        "top2" => dict_wr::<cff::cff2::TopDictDefault>(p[2], p[3], max),
+        "font2" => dict_wr::<cff::cff2::FontDictDefault>(p[2], p[3], max),
+        "priv2" => dict_wr::<cff::cff2::PrivateDictDefault>(p[2], p[3], max),
+        _ => panic!("dict kind {}", p[1]),
+    }
+}
+
+/// The raw bytes of every DICT of the CFF / CFF2 table of a font file, found by walking the table
+/// structure with the INDEX readers only: (kind, bytes).
+fn fixture_dicts(path: &str) -> Result<Vec<(&'static str, Vec<u8>)>, String> {
+    use allsorts::font_data::FontData;
+    use allsorts::tables::FontTableProvider;
+    use allsorts::tag;
+    let root = std::env::var("VERIF_REPO").unwrap_or_else(|_| "/repo".to_string());
+    let data = std::fs::read(format!("{}/{}", root, path)).map_err(|_| "nofile".to_string())?;
+    let fd = ReadScope::new(&data).read::<FontData<'_>>().map_err(|e| format!("err:{}", perr(&e)))?;
+    let prov = fd.table_provider(0).map_err(|_| "err:provider".to_string())?;
+    let get = |t: u32| prov.table_data(t).ok().flatten().map(|c| c.into_owned());
+    let mut out: Vec<(&'static str, Vec<u8>)> = vec![];
+    let pe = |e: ParseError| format!("err:{}", perr(&e));
+    // the (size, offset) operands of the Private operator of a Top / Font DICT
+    fn private_of<T: cff::DictDefault>(d: &[u8], max: usize) -> Option<(usize, usize)> {
+        let dict = ReadScope::new(d).read_dep::<cff::Dict<T>>(max).ok()?;
+        match dict.get(cff::Operator::Private)? {
+            [cff::Operand::Offset(l), cff::Operand::Offset(o)] => Some((usize::try_from(*l).ok()?, usize::try_from(*o).ok()?)),
+            _ => None,
+        }
+    }
+    fn offset_of<T: cff::DictDefault>(d: &[u8], max: usize, op: cff::Operator) -> Option<usize> {
+        let dict = ReadScope::new(d).read_dep::<cff::Dict<T>>(max).ok()?;
+        match dict.get(op)? {
+            [cff::Operand::Offset(o)] => usize::try_from(*o).ok(),
+            _ => None,
+        }
+    }
+    if let Some(t) = get(tag::CFF) {
+        if t.len() < 4 {
+            return Err("err:short".to_string());
+        }
+        let hdr = t[2] as usize;
+        let mut c = ReadScope::new(&t).offset(hdr).ctxt();
+        let _names = c.read::<IndexU16>().map_err(pe)?;
+        let tops = c.read::<IndexU16>().map_err(pe)?;
+        for top in tops.iter() {
+            out.push(("top", top.to_vec()));
+            if let Some((l, o)) = private_of::<cff::TopDictDefault>(top, cff::MAX_OPERANDS) {
+                if let Some(b) = t.get(o..o + l) {
+                    out.push(("priv", b.to_vec()));
+                }
+            }
+            if let Some(o) = offset_of::<cff::TopDictDefault>(top, cff::MAX_OPERANDS, cff::Operator::FDArray) {
+                let fds = ReadScope::new(&t).offset(o).read::<IndexU16>().map_err(pe)?;
+                for f in fds.iter() {
+                    out.push(("font", f.to_vec()));
+                    if let Some((l, o)) = private_of::<cff::FontDictDefault>(f, cff::MAX_OPERANDS) {
+                        if let Some(b) = t.get(o..o + l) {
+                            out.push(("priv", b.to_vec()));
+                        }
+                    }
+                }
+            }
+        }
+    }
+    if let Some(t) = get(tag::CFF2) {
+        if t.len() < 5 {
+            return Err("err:short".to_string());
+        }
+        let hdr = t[2] as usize;
+        let tl = u16::from_be_bytes([t[3], t[4]]) as usize;
+        let top = t.get(hdr..hdr + tl).ok_or("err:short".to_string())?;
+        let m2 = cff::cff2::MAX_OPERANDS;
+        out.push(("top2", top.to_vec()));
+        if let Some(o) = offset_of::<cff::cff2::TopDictDefault>(top, m2, cff::Operator::FDArray) {
+            let fds = ReadScope::new(&t).offset(o).read::<IndexU32>().map_err(pe)?;
+            for f in fds.iter() {
+                out.push(("font2", f.to_vec()));
+                if let Some((l, o)) = private_of::<cff::cff2::FontDictDefault>(f, m2) {
+                    if let Some(b) = t.get(o..o + l) {
+                        out.push(("priv2", b.to_vec()));
+                    }
+                }
+            }
+        }
+    }
+    Ok(out)
+}
+/// filed|PATH: every DICT of the fixture font through parse-write-parse; the result lists, for each
+/// DICT, `KIND HEX => <result of dict|KIND|HEX>` separated by ` ## `
+fn run_filed(p: &[&str]) -> String {
+    match fixture_dicts(p[1]) {
+        Err(e) => format!("dicts={}", e),
+        Ok(ds) => {
+            let parts: Vec<String> = ds.iter().map(|(k, b)| format!("{} {} -> {}", k, hex(b), dict_pwp_kind(k, b))).collect();
+            format!("dicts={}#{}", ds.len(), parts.join(" ## "))
+        }
+    }
+}
+
 fn run(input: &str) -> String {
     let p: Vec<&str> = input.split('|').collect();
     let res = catch_unwind(AssertUnwindSafe(|| match p[0] {
@@ -1011,6 +1234,9 @@ fn run(input: &str) -> String {
         "u24" => run_u24(&p),
         "pascal" => run_pascal(&p),
         "file" => run_file(&p),
+        "dict" => run_dict(&p),
+        "dictw" => run_dictw(&p),
+        "filed" => run_filed(&p),
         _ => panic!("kind {}", p[0]),
     }));
     match res {
@@ -1128,7 +1354,341 @@ fn gen_glyph_coords(rng: &mut Rng, n: usize, wild: bool) -> Vec<(u8, i16, i16)> 
     out
 }
 
+
+// ---------------------------------------------------------------- generator: CFF DICTs
+#[derive(Clone, Debug, PartialEq)]
+enum GOp {
+    I(i32),
+    O(i32),
+    R(Vec<u8>),
+}
+fn gop_show(o: &GOp) -> String {
+    match o {
+        GOp::I(v) => format!("i{}", v),
+        GOp::O(v) => format!("o{}", v),
+        GOp::R(b) => format!("r{}", hex(b)),
+    }
+}
+fn gentries_show(d: &[(u16, Vec<GOp>)]) -> String {
+    if d.is_empty() {
+        return ".".to_string();
+    }
+    d.iter()
+        .map(|(op, ops)| format!("{}:{}", op, ops.iter().map(gop_show).collect::<Vec<_>>().join(",")))
+        .collect::<Vec<_>>()
+        .join("+")
+}
+/// every u16 that Operator::try_from accepts
+fn valid_operators() -> Vec<u16> {
+    (0u16..=24).chain(0x0c00..=0x0cff).filter(|v| cff::Operator::try_from(*v).is_ok()).collect()
+}
+fn gop_of(o: &cff::Operand) -> GOp {
+    match o {
+        cff::Operand::Integer(v) => GOp::I(*v),
+        cff::Operand::Offset(v) => GOp::O(*v),
+        cff::Operand::Real(r) => GOp::R(verif::cff::real_bytes(r).to_vec()),
+    }
+}
+/// the crate's default for (kind, operator): guidance for the generator only, the judge has its own table
+fn crate_default(kind: &str, code: u16) -> Option<Vec<GOp>> {
+    use cff::DictDefault;
+    let op = cff::Operator::try_from(code).ok()?;
+    let d = match kind {
+        "top" => cff::TopDictDefault::default(op),
+        "font" => cff::FontDictDefault::default(op),
+        "priv" => cff::PrivateDictDefault::default(op),
+        "top2" => cff::cff2::TopDictDefault::default(op),
+        "font2" => cff::cff2::FontDictDefault::default(op),
+        _ => cff::cff2::PrivateDictDefault::default(op),
+    }?;
+    Some(d.iter().map(gop_of).collect())
+}
+const INT_EDGES: [i32; 34] = [
+    0, 1, -1, 2, 3, 7, 6, 8, 50, 49, 51, -100, -99, -101, 8720, 8719, 8721, 107, 108, -107, -108, 1131, 1132, -1131, -1132,
+    32767, 32768, -32768, -32769, i32::MAX, i32::MIN, 2147483646, -2147483647, 65536,
+];
+fn gen_int(rng: &mut Rng) -> i32 {
+    match rng.below(10) {
+        0..=3 => *rng.pick(&INT_EDGES),
+        4..=6 => rng.range(-300, 300) as i32,
+        7 => rng.range(-40000, 40000) as i32,
+        _ => rng.next() as i32,
+    }
+}
+const REAL_DEFAULTS: [&[u8]; 3] = [&[0x0a, 0x00, 0x1f], &[0x0a, 0x03, 0x96, 0x25, 0xff], &[0x0a, 0x06, 0xff]];
+/// a real the reader can produce: no 0xF nibble before the last byte, one in the last byte
+fn gen_real(rng: &mut Rng) -> Vec<u8> {
+    let digit = |rng: &mut Rng| rng.below(15) as u8; // 0..=14: digits, '.', 'E', 'E-', reserved, '-'
+    match rng.below(10) {
+        0..=2 => REAL_DEFAULTS[rng.below(3) as usize].to_vec(),
+        3 => {
+            // near a default: one non-terminal nibble changed
+            let mut b = REAL_DEFAULTS[rng.below(3) as usize].to_vec();
+            let i = rng.below((b.len() - 1) as u64) as usize;
+            b[i] = if rng.chance(1, 2) { (b[i] & 0xf0) | digit(rng) } else { (b[i] & 0x0f) | (digit(rng) << 4) };
+            b
+        }
+        4 => vec![*rng.pick(&[0xffu8, 0x0f, 0xf0, 0xf5, 0x5f, 0xdf, 0xfd])],
+        5 => {
+            let n = rng.range(7, 14) as usize;
+            let mut b: Vec<u8> = (0..n).map(|_| (digit(rng) << 4) | digit(rng)).collect();
+            b.push(0xff);
+            b
+        }
+        _ => {
+            let n = rng.below(5) as usize;
+            let mut b: Vec<u8> = (0..n).map(|_| (digit(rng) << 4) | digit(rng)).collect();
+            b.push(match rng.below(3) {
+                0 => 0xff,
+                1 => (digit(rng) << 4) | 0x0f,
+                _ => 0xf0 | rng.below(16) as u8,
+            });
+            b
+        }
+    }
+}
+fn gen_operand(rng: &mut Rng) -> GOp {
+    if rng.chance(1, 5) {
+        GOp::R(gen_real(rng))
+    } else {
+        GOp::I(gen_int(rng))
+    }
+}
+const OFFSET_OPS: [u16; 8] = [15, 16, 17, 18, 19, 0x0c24, 0x0c25, 24];
+/// Offset exactly where the reader puts it (Encoding only above 1, Private both operands)
+fn normal_kinds(code: u16, ops: &mut [GOp]) {
+    let single = [15u16, 17, 19, 0x0c24, 0x0c25, 24];
+    match (code, &*ops) {
+        (16, [GOp::I(v)]) if *v > 1 => ops[0] = GOp::O(*v),
+        (c, [GOp::I(v)]) if single.contains(&c) => ops[0] = GOp::O(*v),
+        (18, [GOp::I(l), GOp::I(o)]) => {
+            let (l, o) = (*l, *o);
+            ops[0] = GOp::O(l);
+            ops[1] = GOp::O(o);
+        }
+        _ => {}
+    }
+}
+fn gen_entry(rng: &mut Rng, kind: &str, all: &[u16], max: usize) -> (u16, Vec<GOp>) {
+    let with_default: Vec<u16> = all.iter().copied().filter(|c| crate_default(kind, *c).is_some()).collect();
+    let code = match rng.below(20) {
+        0..=8 if !with_default.is_empty() => *rng.pick(&with_default),
+        9..=13 => *rng.pick(&OFFSET_OPS),
+        _ => *rng.pick(all),
+    };
+    let small = |rng: &mut Rng| *rng.pick(&[0i32, 1, 2, 3, 100, 1000, 70000, -1, i32::MAX]);
+    let mut ops: Vec<GOp> = if let Some(dflt) = crate_default(kind, code) {
+        match rng.below(12) {
+            0..=3 => dflt,
+            4 => dflt[..rng.below(dflt.len() as u64) as usize].to_vec(), // proper prefix (maybe empty)
+            5 => {
+                let mut d = dflt;
+                d.push(if rng.chance(1, 2) { GOp::I(0) } else { gen_operand(rng) });
+                d
+            }
+            6..=8 => {
+                // one operand next to its default value
+                let mut d = dflt;
+                let i = rng.below(d.len() as u64) as usize;
+                d[i] = match &d[i] {
+                    GOp::I(v) | GOp::O(v) => GOp::I(v + *rng.pick(&[1, -1])),
+                    GOp::R(_) => GOp::R(gen_real(rng)),
+                };
+                d
+            }
+            9 => vec![],
+            _ => (0..rng.below(4)).map(|_| gen_operand(rng)).collect(),
+        }
+    } else if OFFSET_OPS.contains(&code) {
+        let want = if code == 18 { 2 } else { 1 };
+        let n = if rng.chance(1, 7) { *rng.pick(&[0usize, 1, 2, 3]) } else { want };
+        (0..n).map(|_| if rng.chance(1, 12) { GOp::R(gen_real(rng)) } else { GOp::I(small(rng)) }).collect()
+    } else {
+        let n = match rng.below(30) {
+            0..=5 => 0,
+            6..=17 => 1,
+            18..=24 => rng.range(2, 6) as usize,
+            25..=27 => rng.range(7, 20) as usize,
+            28 => max,
+            _ => {
+                if max < 100 {
+                    max + 1
+                } else {
+                    3
+                }
+            }
+        };
+        (0..n).map(|_| gen_operand(rng)).collect()
+    };
+    // offsets written as plain integers in the byte stream; the reader decides
+    for o in ops.iter_mut() {
+        if let GOp::O(v) = o {
+            *o = GOp::I(*v);
+        }
+    }
+    (code, ops)
+}
+fn gen_entries(rng: &mut Rng, kind: &str, max: usize) -> Vec<(u16, Vec<GOp>)> {
+    let all = valid_operators();
+    let n = match rng.below(12) {
+        0 => 0,
+        1..=4 => 1,
+        5..=9 => rng.range(2, 6) as usize,
+        _ => rng.range(7, 15) as usize,
+    };
+    let mut d: Vec<(u16, Vec<GOp>)> = vec![];
+    for _ in 0..n {
+        if rng.chance(1, 8) {
+            // blend-style: operands collected by `blend`, then an operator left without operands
+            let k = rng.range(1, 4) as usize;
+            let regions = rng.range(1, 3) as usize;
+            let mut ops: Vec<GOp> = (0..k * (regions + 1)).map(|_| GOp::I(rng.range(-50, 50) as i32)).collect();
+            ops.push(GOp::I(k as i32));
+            d.push((23, ops));
+            let with_default: Vec<u16> = all.iter().copied().filter(|c| crate_default(kind, *c).is_some()).collect();
+            let target = if !with_default.is_empty() && rng.chance(2, 3) { *rng.pick(&with_default) } else { *rng.pick(&[6u16, 7, 8, 9, 10, 11, 0x0c09, 0x0c0a, 0x0c0b, 0x0c0c]) };
+            d.push((target, vec![]));
+        } else {
+            d.push(gen_entry(rng, kind, &all, max));
+        }
+    }
+    d
+}
+/// own encoder (independent of the crate): integers in the shortest or, when `loose`, any longer form
+fn enc_int(rng: &mut Rng, v: i32, loose: bool, out: &mut Vec<u8>) {
+    let form = if (-107..=107).contains(&v) {
+        0
+    } else if (-1131..=1131).contains(&v) {
+        1
+    } else if (-32768..=32767).contains(&v) {
+        2
+    } else {
+        3
+    };
+    let form = if loose && rng.chance(1, 4) { (form + rng.below(3) as usize + 1).min(3).max(if form == 1 { 2 } else { form }) } else { form };
+    match form {
+        0 => out.push((v + 139) as u8),
+        1 => {
+            if v > 0 {
+                let w = v - 108;
+                out.push((w / 256 + 247) as u8);
+                out.push((w % 256) as u8);
+            } else {
+                let w = -v - 108;
+                out.push((w / 256 + 251) as u8);
+                out.push((w % 256) as u8);
+            }
+        }
+        2 => {
+            out.push(28);
+            out.extend((v as i16).to_be_bytes());
+        }
+        _ => {
+            out.push(29);
+            out.extend(v.to_be_bytes());
+        }
+    }
+}
+fn enc_entries(rng: &mut Rng, d: &[(u16, Vec<GOp>)], loose: bool) -> Vec<u8> {
+    let mut out = vec![];
+    for (code, ops) in d {
+        for o in ops {
+            match o {
+                GOp::I(v) | GOp::O(v) => enc_int(rng, *v, loose, &mut out),
+                GOp::R(b) => {
+                    out.push(30);
+                    out.extend(b);
+                }
+            }
+        }
+        if *code > 0xff {
+            out.extend(code.to_be_bytes());
+        } else {
+            out.push(*code as u8);
+        }
+    }
+    out
+}
+fn gen_dict(rng: &mut Rng) -> String {
+    let kind = *rng.pick(&DICT_KINDS);
+    let max = dict_max(kind);
+    let mut d = gen_entries(rng, kind, max);
+    if rng.chance(11, 20) {
+        // bytes -> read -> write -> read
+        let loose = rng.chance(1, 2);
+        let mut b = enc_entries(rng, &d, loose);
+        if rng.chance(1, 4) {
+            match rng.below(7) {
+                0 => {
+                    let at = rng.below(b.len() as u64 + 1) as usize;
+                    b.insert(at, *rng.pick(&[25u8, 26, 27, 31, 255]));
+                }
+                1 => {
+                    let cut = rng.range(1, 4) as usize;
+                    b.truncate(b.len().saturating_sub(cut));
+                }
+                2 => {
+                    // operands after the last operator
+                    for _ in 0..rng.range(1, 3) {
+                        let v = gen_int(rng);
+                        enc_int(rng, v, true, &mut b);
+                    }
+                }
+                3 => {
+                    // an undefined two-byte operator
+                    b.extend([12u8, *rng.pick(&[15u8, 16, 24, 25, 29, 39, 40, 255])]);
+                }
+                4 => {
+                    // too many operands
+                    for _ in 0..=max {
+                        b.push(139);
+                    }
+                    b.push(*rng.pick(&[6u8, 7, 14]));
+                }
+                5 => {
+                    let n = rng.range(1, 12) as usize;
+                    b = rng.bytes(n);
+                }
+                _ => {
+                    // a real that never ends, or an operand cut short
+                    b.extend(*rng.pick(&[&[30u8, 0x12, 0x34][..], &[28u8, 1][..], &[29u8, 0, 0, 1][..], &[247u8][..], &[12u8][..]]));
+                }
+            }
+        }
+        format!("dict|{}|{}", kind, hex(&b))
+    } else {
+        // entries -> write (delta) -> read: operand kinds as the reader would produce them, mostly
+        for (code, ops) in d.iter_mut() {
+            if !rng.chance(1, 12) {
+                normal_kinds(*code, ops);
+            }
+            if rng.chance(1, 30) {
+                if let Some(GOp::I(v)) = ops.first().cloned() {
+                    ops[0] = GOp::O(v);
+                }
+            }
+            if rng.chance(1, 25) {
+                // an operand the reader cannot produce: a real without / beyond its end nibble
+                ops.push(GOp::R(rng.pick(&[&[][..], &[0x12u8][..], &[0x1f, 0x2f][..], &[0xff, 0x00][..]]).to_vec()));
+            }
+        }
+        let mut delta: Vec<(u16, Vec<GOp>)> = vec![];
+        if rng.chance(1, 2) {
+            for _ in 0..rng.range(1, 3) {
+                let code = if !d.is_empty() && rng.chance(3, 4) { d[rng.below(d.len() as u64) as usize].0 } else { *rng.pick(&OFFSET_OPS) };
+                let n = if code == 18 { 2 } else if rng.chance(1, 10) { 2 } else { 1 };
+                let ops = (0..n).map(|_| GOp::O(*rng.pick(&[0i32, 1, 2, 5, 1000, 70000, -1, i32::MAX, i32::MIN]))).collect();
+                delta.push((code, ops));
+            }
+        }
+        format!("dictw|{}|{}|{}", kind, gentries_show(&d), gentries_show(&delta))
+    }
+}
+
 fn gen(rng: &mut Rng) -> String {
+    if rng.below(100) < 30 {
+        return gen_dict(rng);
+    }
     let mode = build_mode();
     match rng.below(100) {
         0..=17 => {
